@@ -769,7 +769,7 @@ funcexpr(struct func *f, struct expr *e)
 			return NULL;  /* unreachable */
 		}
 		v = funcinst(f, e->op == TINC ? IADD : ISUB, qbetype(t).base, l, r);
-		v = funcstore(f, e->type, e->qual, lval, v);
+		v = funcstore(f, e->type, e->base->qual, lval, v);
 		return e->u.incdec.post ? l : v;
 	case EXPRCALL:
 		argvals = xreallocarray(NULL, e->u.call.nargs, sizeof(argvals[0]));
